@@ -64,6 +64,15 @@ class Tr:
         self.nloops = 0
         self.ret = spec['ret']
 
+    def H(self, env):
+        """the Coq name of the heap as it is now (a state variable in functions that write the heap)"""
+        h = self.spec.get('heap')
+        return env[h][0] if h in env else h
+
+    def fill(self, text, env):
+        """placeholders of spec texts: $H the current heap, $F the fuel left for calls of recursive functions"""
+        return text.replace('$H', self.H(env) or '').replace('$F', self.rec_fuel or self.spec.get('fuel_name', 'fuel'))
+
     def fresh(self, base):
         self.n += 1
         return '%s_%d' % (base.replace('$', '').strip('_') or 'v', self.n)
@@ -122,12 +131,12 @@ class Tr:
                 def prop_read(a, ta):
                     if ta != 'obj':
                         raise Unsupported('property %s of a %s' % (path, ty_str(ta) if ta not in ('intlit', 'none') else ta))
-                    return self._apply(fn, [a], ('fun', ['obj'], t, eff), k)
+                    return self._apply(self.fill(fn, env), [a], ('fun', ['obj'], t, eff), k)
                 return self.expr(e.value, env, prop_read)
             # attribute of a heap object: read from the heap parameter of the spec
             if e.attr in sp.get('obj_attrs', {}):
                 fn, t = sp['obj_attrs'][e.attr]
-                hv = sp['heap']
+                hv = self.H(env)
 
                 def heap_read(a, ta):
                     if ta != 'obj':
@@ -212,7 +221,7 @@ class Tr:
     def eqb(self, t):
         if t == 'Z':
             return 'Z.eqb'
-        if t in ('nat', 'obj'):
+        if t in ('nat', 'obj', 'wid'):
             return 'Nat.eqb'
         raise Unsupported('equality on %s' % ty_str(t))
 
@@ -267,7 +276,7 @@ class Tr:
             # a call of the function being translated: one unit of fuel less
             tf = self.spec['self_type']
             return self.args(list(e.args), tf[1], env, lambda atoms: self._apply(
-                '%s %s %s' % (self.spec['coq_name'], self.rec_fuel, self.spec['heap']), atoms, tf, k))
+                '%s %s %s' % (self.spec['coq_name'], self.rec_fuel, self.H(env)), atoms, tf, k))
         if name in ('min', 'max') and len(e.args) == 2 and not e.keywords:
             f = self.ops[name]
             return self.expr(e.args[0], env, lambda a, ta: self.expr(e.args[1], env, lambda b, tb: k(
@@ -301,13 +310,13 @@ class Tr:
             _, fn, tf, idx = target
             if e.keywords or len(e.args) <= max(idx, default=-1):
                 raise Unsupported('call of %s with %d positional arguments (the spec passes arguments %s on)' % (name, len(e.args), idx))
-            return self.args([e.args[i] for i in idx], tf[1], env, lambda atoms: self._apply(fn, atoms, tf, k))
+            return self.args([e.args[i] for i in idx], tf[1], env, lambda atoms: self._apply(self.fill(fn, env), atoms, tf, k))
         if kind == 'recv_fn':
             # method on a typed receiver translated to a Coq function taking the receiver first
             _, fn, tf, idx = target
             return self.expr(recv, env, lambda r, tr_: self.args(
                 [e.args[i] for i in idx], tf[1][1:], env,
-                lambda atoms: self._apply(fn, [self.coerce(r, tr_, tf[1][0])] + atoms, tf, k)))
+                lambda atoms: self._apply(self.fill(fn, env), [self.coerce(r, tr_, tf[1][0])] + atoms, tf, k)))
         raise Unsupported('call kind %s' % kind)
 
     def _sum(self, l, tl, z0, tz, k):
@@ -373,6 +382,13 @@ class Tr:
             return '(' + op.join(parts) + ')'
         if isinstance(e, ast.UnaryOp) and isinstance(e.op, ast.Not):
             return '(negb %s)' % self.pure_bool(e.operand, env)
+        if isinstance(e, ast.Compare) and len(e.ops) == 1 and isinstance(e.ops[0], (ast.Is, ast.IsNot)) \
+                and isinstance(e.comparators[0], ast.Constant) and e.comparators[0].value is None:
+            a, ta = self.pure(e.left, env)
+            if not (isinstance(ta, tuple) and ta[0] == 'option'):
+                raise Unsupported('`is None` on a %s inside a comprehension' % (ta,))
+            yes, no_ = ('true', 'false') if isinstance(e.ops[0], ast.Is) else ('false', 'true')
+            return '(match %s with None => %s | Some _ => %s end)' % (a, yes, no_)
         if isinstance(e, ast.Compare) and len(e.ops) == 1:
             a, ta = self.pure(e.left, env)
             b, tb = self.pure(e.comparators[0], env)
@@ -401,7 +417,14 @@ class Tr:
             if isinstance(op, ast.GtE) and 'leb' in o:
                 return '(%s %s %s)' % (o['leb'], b2, a2)
             raise Unsupported('number comparison %s' % type(op).__name__)
-        if ta in ('nat', 'obj') and tb == ta and isinstance(op, (ast.Eq, ast.NotEq, ast.Is, ast.IsNot)):
+        opt_ids = (('option', 'obj'), ('option', 'wid'), ('option', 'nat'), 'obj', 'wid', 'nat', 'none')
+        if isinstance(op, (ast.Eq, ast.NotEq, ast.Is, ast.IsNot)) and ta in opt_ids and tb in opt_ids \
+                and (isinstance(ta, tuple) or isinstance(tb, tuple)):
+            # identities that may be None: compared as options of numbers
+            want = ta if isinstance(ta, tuple) else tb
+            eq = '(onat_eqb %s %s)' % (self.coerce(a, ta, want), self.coerce(b, tb, want))
+            return eq if isinstance(op, (ast.Eq, ast.Is)) else '(negb %s)' % eq
+        if ta in ('nat', 'obj', 'wid') and tb == ta and isinstance(op, (ast.Eq, ast.NotEq, ast.Is, ast.IsNot)):
             # objects compared with == (no __eq__ defined: identity), modelled as numbers
             eq = '(Nat.eqb %s %s)' % (a, b)
             return eq if isinstance(op, (ast.Eq, ast.Is)) else '(negb %s)' % eq
@@ -460,7 +483,8 @@ class Tr:
                 env2[key] = (v, ta[1])
                 if not isinstance(l, ast.Name):
                     env2[('$field', key)] = (v, ta[1])
-            elif isinstance(l, ast.Attribute) and isinstance(l.value, ast.Name) and not self.spec.get('state'):
+            elif isinstance(l, ast.Attribute) and isinstance(l.value, ast.Name) and \
+                    (not self.spec.get('state') or self.spec.get('state') == self.spec.get('heap')):
                 # an attribute of a heap object read twice without a write in between (the heap is read-only here)
                 env2[('$field', key)] = (v, ta[1])
             return '(match %s with None => %s | Some %s => %s end)' % (a, k_none(env), v, k_some(env2))
@@ -489,6 +513,87 @@ class Tr:
             return self.spec.get('mutators', {}).get(ast.unparse(node.func))
         return None
 
+    def after_write(self, env, newheap):
+        """the environment after the heap changed: what was read from the old heap is forgotten"""
+        env2 = {k: v for k, v in env.items() if not (isinstance(k, tuple) and k[0] in ('$field', '$sub'))}
+        env2[self.spec['heap']] = (newheap, 'heap')
+        return env2
+
+    def heap_write(self, s, env, nxt):
+        """statements that change the heap: `x.__fld = e`, `x.__lst.remove(y)`, `x.__lst.append(y)`, `x._method(args)` for
+        the translated methods named in the spec (`method_mutators`); None when `s` is none of them"""
+        sp = self.spec
+        writes = sp.get('obj_writes', {})
+        if not writes and not sp.get('method_mutators'):
+            return None
+        hname = sp['heap']
+        if isinstance(s, ast.Assign) and len(s.targets) == 1 and isinstance(s.targets[0], ast.Attribute) \
+                and s.targets[0].attr in writes:
+            tgt = s.targets[0]
+            setter = writes[tgt.attr]
+            ftype = sp['obj_attrs'][tgt.attr][1]
+
+            def with_obj(x, tx):
+                if tx != 'obj':
+                    raise Unsupported('assignment to %s of a %s' % (ast.unparse(tgt), tx))
+
+                def with_val(v, tv):
+                    h2 = self.fresh(hname)
+                    return '(let %s := upd %s %s (%s %s) in %s)' % (h2, self.H(env), x, setter, self.coerce(v, tv, ftype), nxt(self.after_write(env, h2)))
+                return self.expr(s.value, env, with_val)
+            return self.expr(tgt.value, env, with_obj)
+        if isinstance(s, ast.Assign) and len(s.targets) == 1 and isinstance(s.targets[0], ast.Subscript) \
+                and isinstance(s.targets[0].value, ast.Attribute) and s.targets[0].value.attr in writes \
+                and isinstance(s.targets[0].slice, ast.Slice) and s.targets[0].slice.lower is None \
+                and s.targets[0].slice.upper is None and s.targets[0].slice.step is None:
+            fld = s.targets[0].value
+            setter = writes[fld.attr]
+            ftype = sp['obj_attrs'][fld.attr][1]
+
+            def with_obj2(x, tx):
+                if tx != 'obj':
+                    raise Unsupported('assignment to %s of a %s' % (ast.unparse(fld), tx))
+
+                def with_val2(v, tv):
+                    h2 = self.fresh(hname)
+                    return '(let %s := upd %s %s (%s %s) in %s)' % (h2, self.H(env), x, setter, self.coerce(v, tv, ftype), nxt(self.after_write(env, h2)))
+                return self.expr(s.value, env, with_val2)
+            return self.expr(fld.value, env, with_obj2)
+        if isinstance(s, ast.Expr) and isinstance(s.value, ast.Call) and isinstance(s.value.func, ast.Attribute):
+            call = s.value
+            meth = call.func.attr
+            recv = call.func.value
+            if meth in ('remove', 'append') and isinstance(recv, ast.Attribute) and recv.attr in writes \
+                    and len(call.args) == 1 and not call.keywords:
+                getter = sp['obj_attrs'][recv.attr][0]
+                setter = writes[recv.attr]
+
+                def with_owner(x, tx):
+                    if tx != 'obj':
+                        raise Unsupported('%s on a %s' % (ast.unparse(call.func), tx))
+
+                    def with_elt(y, ty):
+                        y2 = self.coerce(y, ty, 'obj')
+                        new = '(remove1 %s (%s T_))' % (y2, getter) if meth == 'remove' else '(%s T_ ++ [%s])' % (getter, y2)
+                        h2 = self.fresh(hname)
+                        return '(let %s := upd %s %s (fun T_ => %s %s T_) in %s)' % (h2, self.H(env), x, setter, new, nxt(self.after_write(env, h2)))
+                    return self.expr(call.args[0], env, with_elt)
+                return self.expr(recv.value, env, with_owner)
+            mm = sp.get('method_mutators', {})
+            if meth in mm and not call.keywords:
+                fn, argtypes = mm[meth]
+
+                def with_recv(x, tx):
+                    if tx != 'obj':
+                        raise Unsupported('%s on a %s' % (ast.unparse(call.func), tx))
+
+                    def with_args(atoms):
+                        h2 = self.fresh(hname)
+                        return "(do '(%s, _) <- %s %s %s %s; %s)" % (h2, self.fill(fn, env), self.H(env), x, ' '.join(atoms), nxt(self.after_write(env, h2)))
+                    return self.args(list(call.args), argtypes, env, with_args)
+                return self.expr(recv, env, with_recv)
+        return None
+
     def grows(self, node):
         """name of the local list / set that the statement-level call `name.append(x)` / `name.add(x)` grows"""
         if isinstance(node, ast.Expr) and isinstance(node.value, ast.Call) and isinstance(node.value.func, ast.Attribute) \
@@ -508,6 +613,18 @@ class Tr:
                 g = self.grows(n)
                 if g is not None and g not in names:
                     names.append(g)
+                hn = self.spec.get('heap')
+                if hn and hn not in names and self.spec.get('state') == hn:
+                    if (isinstance(n, ast.Assign) and len(n.targets) == 1 and isinstance(n.targets[0], ast.Attribute)
+                            and n.targets[0].attr in self.spec.get('obj_writes', {})) or \
+                       (isinstance(n, ast.Assign) and len(n.targets) == 1 and isinstance(n.targets[0], ast.Subscript)
+                            and isinstance(n.targets[0].value, ast.Attribute)
+                            and n.targets[0].value.attr in self.spec.get('obj_writes', {})) or \
+                       (isinstance(n, ast.Call) and isinstance(n.func, ast.Attribute) and
+                            (n.func.attr in self.spec.get('method_mutators', {}) or
+                             (n.func.attr in ('remove', 'append') and isinstance(n.func.value, ast.Attribute)
+                              and n.func.value.attr in self.spec.get('obj_writes', {})))):
+                        names.append(hn)
                 if isinstance(n, (ast.Yield, ast.YieldFrom)) and '$yielded' not in names:
                     names.append('$yielded')
                 if isinstance(n, (ast.Assign, ast.AugAssign, ast.AnnAssign)):
@@ -515,6 +632,11 @@ class Tr:
                     for t in ts:
                         if isinstance(t, ast.Name) and t.id not in names:
                             names.append(t.id)
+                        elif isinstance(t, ast.Attribute) and t.attr in self.spec.get('obj_writes', {}):
+                            pass
+                        elif isinstance(t, ast.Subscript) and isinstance(t.value, ast.Attribute) \
+                                and t.value.attr in self.spec.get('obj_writes', {}):
+                            pass
                         elif not isinstance(t, ast.Name):
                             raise Unsupported('assignment to %s' % ast.unparse(t))
         return names
@@ -522,6 +644,8 @@ class Tr:
     def local_type(self, name):
         if name == '$yielded':
             return self.ret
+        if name == self.spec.get('heap') and self.spec.get('state') == name:
+            return 'heap'
         t = self.spec.get('locals', {}).get(name)
         if t is None:
             raise Unsupported('loop-carried variable %s has no declared type in the spec' % name)
@@ -593,6 +717,9 @@ class Tr:
                     cont = self.bind(tgt0.id, v, rt, env2, nxt)
                 return "(do '(%s, %s) <- %s %s %s; %s)" % (st2, v, fn, env[state][0], ' '.join(atoms), cont)
             return self.args(list(val.args), argtypes, env, after_call)
+        hw = self.heap_write(s, env, nxt)
+        if hw is not None:
+            return hw
         g = self.grows(s)
         if g is not None:
             t = self.local_type(g)
@@ -613,6 +740,11 @@ class Tr:
                     raise Unsupported('yield from a %s' % (ty_str(ta),))
                 return self.bind('$yielded', '(%s ++ %s)' % (env['$yielded'][0], a), self.ret, env, nxt)
             return self.expr(s.value.value, env, extended)
+        if isinstance(s, ast.Expr) and isinstance(s.value, ast.Call) and self.mutator_of(s.value) is None and \
+                (ast.unparse(s.value.func) in self.spec.get('calls', {}) or
+                 (isinstance(s.value.func, ast.Attribute) and ('.' + s.value.func.attr) in self.spec.get('calls', {})
+                  and s.value.func.attr not in self.spec.get('method_mutators', {}))):
+            return self.expr(s.value, env, lambda a, ta: nxt(env))      # called for its exceptions only
         if isinstance(s, ast.Expr) and isinstance(s.value, ast.Call) and ast.unparse(s.value.func) in self.spec.get('ignored_calls', ()):
             return nxt(env)
         if isinstance(s, ast.Expr) and isinstance(s.value, ast.Call) and ast.unparse(s.value.func) in self.spec.get('appends', {}):
@@ -645,6 +777,26 @@ class Tr:
                 raise Unsupported('augmented assignment to %s' % ast.unparse(s.target))
             e2 = ast.BinOp(left=ast.Name(id=s.target.id, ctx=ast.Load()), op=s.op, right=s.value)
             return self.expr(e2, env, lambda a, ta: self.bind(s.target.id, a, ta, env, nxt))
+        if isinstance(s, ast.If) and self.spec.get('joins') and rest:
+            # long functions: what follows the `if` becomes a local function of the variables the branches assign (a join
+            # point), so that it is emitted once; what a branch learnt about an Optional is not carried past the join
+            vs = [v for v in self.assigned(list(s.body) + list(s.orelse)) if v in env]
+            vts = [self.local_type(v) for v in vs]
+            j = self.fresh('join')
+            ps = [self.fresh(v) for v in vs]
+            envj = {k: v for k, v in env.items() if not (isinstance(k, tuple) and k[0] in ('$sub', '$field'))}
+            for v, p_, t in zip(vs, ps, vts):
+                envj[v] = (p_, t)
+            sig = ' '.join('(%s : %s)' % (p_, ty_str(t)) for p_, t in zip(ps, vts)) or '(_ : unit)'
+            after = self.block(rest, envj, fall, loop)
+
+            def goto(env1):
+                args = ' '.join(self.coerce(env1[v][0], env1[v][1], t, 'at the join') for v, t in zip(vs, vts)) or 'tt'
+                return '(%s %s)' % (j, args)
+            body = self.cond(s.test, env,
+                             lambda env1: self.block(list(s.body), env1, goto, loop),
+                             lambda env2: self.block(list(s.orelse), env2, goto, loop))
+            return '(let %s := (fun %s => %s) in %s)' % (j, sig, after, body)
         if isinstance(s, ast.If):
             return self.cond(s.test, env,
                              lambda env1: self.block(list(s.body) + rest, env1, fall, loop),
